@@ -27,14 +27,7 @@ import vlib, arr, reports
 PID = "C20"
 
 
-def tlc_retry(module, **kw):
-    for attempt in range(4):
-        r = vlib.run_tlc(module, **kw)
-        if "Parsing or semantic analysis failed" in r.out and attempt < 3:
-            time.sleep(15)          # spec/Array.tla may be saved by another session at this very moment
-            continue
-        return r
-    return r
+tlc_retry = reports.tlc_retry
 
 
 def model_sanity(tier, results):
@@ -64,7 +57,7 @@ def esc_model(tier, results):
     return t
 
 
-def validate_chunks(scs, tag, chunk=36, par=4):
+def validate_chunks(scs, tag, chunk=24, par=4):
     """group by disk count, cut in chunks, run up to `par` TLC instances at a time; returns [(scenario, finding)], states, generated"""
     groups = collections.defaultdict(list)
     for s in scs:
@@ -159,7 +152,7 @@ def run(tier):
     steps = 14 if quick else 22
     jobs = [(s0 + 900 + i, k, 0, False) for i, k in enumerate(reports.DIRECTED)]
     jobs += [(s0 + i, "random", steps, i % 3 == 0) for i in range(n)]
-    scs = reports.record(jobs, procs=8 if quick else 10)
+    scs = reports.record(jobs, procs=8 if quick else 12)
     for s in scs:
         if s.get("err"):
             raise vlib.ToolFailure("scenario %s/%s failed: %s" % (s["seed"], s["kind"], s["err"]))
@@ -213,12 +206,10 @@ def run(tier):
     if r.violated:
         v.violation("TLC: %s fails on ReportsEsc: %s" % (r.violated, "".join(r.trace)[:800]),
                     replay_obj={"kind": "tlc-trace", "trace": r.trace}, signature="model-encoding-" + str(r.violated))
-    if r2.violated == "RawIsDecodable":
-        v.violation("F6-status-zerosubsecond-unescaped: TLC finds on the model (ReportsEsc!RawIsDecodable) that a name written to a tag "
-                    "line without escaping is not recovered by the documented decoding: %s" % "".join(r2.trace).strip()[:200],
-                    replay_obj={"kind": "tlc-trace", "trace": r2.trace}, signature="F6-status-zerosubsecond-unescaped")
-    else:
-        raise vlib.ToolFailure("ReportsEsc no longer exhibits the counterexample of an unescaped name (F6)\n" + r2.out[-1500:])
+    # sanity of the model only: without escaping a name is NOT recovered (this is why every tag that carries a name must use
+    # esc_tag; it was finding F6 for status.c, repaired by 9208a90); the binary is judged on its own output below
+    if r2.violated != "RawIsDecodable":
+        raise vlib.ToolFailure("ReportsEsc no longer exhibits the counterexample of an unescaped name\n" + r2.out[-1500:])
     with open(esc["table"]) as f:
         table = json.load(f)["table"]
     for p in (esc["table"], esc["table"] + ".raw"):
